@@ -216,7 +216,7 @@ pub fn run(shard: &Shard) -> i32 {
             let uv = rng.chance(1, 2);
             with_acc(|a| { judge(&seq, uv, a, false); a.bump("random_sequences", 1); });
         } else {
-            let p = Profile { only_all_impacted: true, with_dominance: true, small: rng.chance(1, 2), weak_t_dominance: true, ..Default::default() };
+            let p = Profile { only_all_impacted: true, with_dominance: true, small: rng.chance(1, 2), weak_t_dominance: true, medium_share: 1, ..Default::default() };
             let mut spec = random_spec(rng, &p);
             if spec.variant.dom == DomKind::None { spec.variant.dom = if rng.chance(2, 3) { DomKind::Exact } else { DomKind::Weak }; }
             if rng.chance(1, 3) {
